@@ -39,9 +39,15 @@ def modules_of(H):
     return mods
 
 
+TRUNC = {"des_crypt": 8, "django_des_crypt": 8, "ldap_des_crypt": 8, "crypt16": 16, "bigcrypt": 128}
+
+
 def equiv(name, a, b):
     """z3 condition: passwords a, b (SBytes of equal length) are the same up to the format's documented equivalence"""
-    if name in DES7 and len(a) != len(b) and max(len(a), len(b)) <= 8:
+    if name in TRUNC:
+        # bytes beyond the format's limit are ignored (documented; C05 decides the limit itself)
+        a, b = SBytes(list(a.b[:TRUNC[name]])), SBytes(list(b.b[:TRUNC[name]]))
+    if name in DES7 and len(a) != len(b) and (max(len(a), len(b)) <= 8 or name in TRUNC):
         # 7-bit keys, NUL padded: a byte whose low 7 bits are zero is the end of the password
         n = max(len(a), len(b))
         pa, pb = list(a.b) + [0] * (n - len(a)), list(b.b) + [0] * (n - len(b))
@@ -367,7 +373,9 @@ def _tviol(name, m, t, what):
 
 
 def _same(name, a, b):
-    if name in DES7 and max(len(a), len(b)) <= 8:
+    if name in TRUNC:
+        a, b = bytes(a)[:TRUNC[name]], bytes(b)[:TRUNC[name]]
+    if name in DES7 and (max(len(a), len(b)) <= 8 or name in TRUNC):
         n = max(len(a), len(b))
         a, b = bytes(a) + b"\0" * (n - len(a)), bytes(b) + b"\0" * (n - len(b))
     if len(a) != len(b):
